@@ -1319,6 +1319,7 @@ func (t *objectType) members(includeParent bool) hash.StringHash {
 
 func (t *objectType) resolvedParent() *objectType {
 	tp := t.parent
+	var seen []*TypeAliasType
 	for {
 		switch at := tp.(type) {
 		case nil:
@@ -1326,6 +1327,13 @@ func (t *objectType) resolvedParent() *objectType {
 		case *objectType:
 			return at
 		case *TypeAliasType:
+			// aliases may refer to each other in a circle (A = B, B = A): such a parent is no Object
+			for _, s := range seen {
+				if s == at {
+					panic(px.Error(px.IllegalObjectInheritance, issue.H{`label`: t.Label(), `type`: tp.PType().String()}))
+				}
+			}
+			seen = append(seen, at)
 			tp = at.resolvedType
 		default:
 			panic(px.Error(px.IllegalObjectInheritance, issue.H{`label`: t.Label(), `type`: tp.PType().String()}))
